@@ -8,6 +8,7 @@ import contextvars
 import enum
 import hashlib
 import itertools
+import os
 
 RUN = contextvars.ContextVar('vk_run', default=None)
 
@@ -139,7 +140,8 @@ class RunRec:
         self.ev_counts = {}
         self.save_counts = {}
         self.saved_ids = set()
-        self.file = None  # for real worker processes
+        self.file = None  # for real worker processes: O_APPEND trace file
+        self.pid = os.getpid()
         self.end_seq = None
         self.end_pending = 0
 
@@ -154,11 +156,60 @@ class RunRec:
         return kw
 
 
+# Real executor threads and forked worker processes do not inherit the ContextVar (loop.run_in_executor does not
+# copy the context): real-pool checks run one run at a time and publish it here before the pools are created.
+CURRENT = None
+
+
+class _Stateless:
+    """behaviour when no run record is reachable (worker processes forked before the case was known): every node
+    returns its provenance value; invocations are appended to the O_APPEND file named by VK_TRACE_FILE"""
+
+    tag = 'stateless'
+    loop = None
+    beh = {}
+    rec_start_of = {}
+    pid = None
+    file = None
+
+    def __init__(self):
+        self.counts = {}
+        self.trace = []
+        self.raised = []
+        self.nodes = _AnyNode()
+
+    def now(self):
+        return 0.0
+
+    def rec(self, **kw):
+        kw['seq'] = next_seq()
+        kw['t'] = 0.0
+        kw['run'] = self.tag
+        return kw
+
+
+class _AnyNode(dict):
+    def __missing__(self, key):
+        return {'id': key, 'mode': 'thread', 'params': []}
+
+
 def _run():
     r = RUN.get()
     if r is None:
-        raise RuntimeError('verifkit runtime: body invoked outside of an attributed run')
+        r = CURRENT
+    if r is None:
+        r = _Stateless()
     return r
+
+
+def _trace_to_file(run, nid):
+    path = run.file or os.environ.get('VK_TRACE_FILE')
+    if path and (run.pid is None or run.pid != os.getpid()):
+        fd = os.open(path, os.O_WRONLY | os.O_APPEND | os.O_CREAT)
+        try:
+            os.write(fd, f'{nid}\n'.encode())
+        finally:
+            os.close(fd)
 
 
 def _enter(self_, kwargs):
@@ -167,12 +218,15 @@ def _enter(self_, kwargs):
     inv = run.counts.get(nid, 0) + 1
     run.counts[nid] = inv
     ent = run.rec(kind='body', node=nid, inv=inv, kwargs=dict(kwargs), end=None, outcome=None)
+    _trace_to_file(run, nid)
     return run, nid, inv, ent
 
 
 def _finish(run, self_, nid, inv, ent, kwargs):
-    nspec = run.nodes[nid]
-    beh = run.beh.get(nid, {})
+    nspec = run.nodes.get(nid) or {'id': nid, 'mode': 'thread', 'params': []}
+    beh = getattr(self_, '_vk_beh', None)
+    if beh is None:
+        beh = run.beh.get(nid, {})
     out = outcome_at(beh, inv)
     ent['end'] = next_seq()
     ent['t_end'] = run.now()
@@ -199,7 +253,7 @@ def body(self_, kwargs):
 
 async def abody(self_, kwargs):
     run, nid, inv, ent = _enter(self_, kwargs)
-    if run.nodes[nid]['mode'] == 'gated' and run.loop is not None and hasattr(run.loop, 'add_external'):
+    if (run.nodes.get(nid) or {}).get('mode') == 'gated' and run.loop is not None and hasattr(run.loop, 'add_external'):
         from verifkit.vloop import Gate
 
         await Gate(run.loop, ('gate', run.tag, nid, ent['seq']))
@@ -209,7 +263,7 @@ async def abody(self_, kwargs):
 def default(self_, kwargs):
     run = _run()
     nid = self_._vk_id
-    v = default_value(nid, run.nodes[nid], kwargs)
+    v = default_value(nid, run.nodes.get(nid) or {'id': nid}, kwargs)
     run.rec(kind='default', node=nid, kwargs=dict(kwargs), value=v)
     return v
 
